@@ -435,8 +435,29 @@ def _moore(spec, ctx, R):
             e[0] = -e[0]
     A, _ = refq.hermitian_with_eigs(rng, e)
     tagk = ["definite", "indefinite", "singular", "repeated"][k]
-    struct = ["dense", "dense", "zero_subdiagonal_entry", "arrow", "sparse", "block_diagonal", "tridiagonal", "real_symmetric"][(spec["idx"] // 4) % 8]
-    if struct != "dense" and n >= 3:
+    struct = ["dense", "dense", "zero_subdiagonal_entry", "arrow", "sparse", "block_diagonal", "tridiagonal", "real_symmetric",
+              "hollow", "dilation", "leading_entry_zero", "leading_block_rank_one"][(spec["idx"] // 4) % 12]
+    if struct in ("hollow", "dilation", "leading_entry_zero", "leading_block_rank_one") and n >= 2:
+        # NONSINGULAR Hermitian matrices with a vanishing leading principal minor (zero diagonal, the Hermitian dilation [[0,B],[B^H,0]], a zero
+        # leading entry, a leading 2x2 block of rank one): the determinant is far from zero although an elimination without pivoting breaks down
+        B_ = refq.randq(rng, n, n)
+        c = refq.fa(refq.symmetrize(B_ + refq.herm(B_))).copy()
+        if struct == "hollow":
+            c[np.arange(n), np.arange(n)] = 0.0
+        elif struct == "dilation":
+            h = n // 2
+            c[:h, :h] = 0.0; c[h:, h:] = 0.0
+            if n % 2:
+                c[n - 1, n - 1, 0] = 1.5
+        elif struct == "leading_entry_zero":
+            c[0, 0] = 0.0
+        else:
+            q_ = c[0, 1] / max(float(np.linalg.norm(c[0, 1])), 1e-300)
+            c[0, 0] = [2.0, 0, 0, 0]; c[1, 1] = [0.5, 0, 0, 0]; c[0, 1] = q_; c[1, 0] = q_ * np.array([1.0, -1.0, -1.0, -1.0])     # 2 * 0.5 - |q|^2 = 0
+        A = refq.symmetrize(refq.qa(c))
+        tagk = "structured:" + struct
+        ctx.hit("moore:vanishing_leading_minor")
+    elif struct != "dense" and n >= 3:
         # structured Hermitian inputs (exact zeros at particular positions): the reduction takes other branches there
         c = refq.fa(A).copy()
         if struct == "zero_subdiagonal_entry":
